@@ -6,6 +6,13 @@ NOTE = ("bounded scope only (declared lattices/catalogues/depths); exact Fractio
 TECH = "exhaustive small-scope enumeration of the real implementation against an exact reference model (explicit-state explorer written for this task)"
 
 CHECKS = {
+    "C15": ("Conic.from_lines over all ordered pairs of distinct lines of {-2..2}^3 (all sign patterns) and Quadric.from_planes over all pairs of "
+            "distinct planes of {-1,0,1}^4: degenerate, and components equal the generating pair as an unordered pair of projective classes, single "
+            "and collection forms; is_degenerate against the exact determinant for all 728 lattice conics and 14 quadrics; irreducible quadrics "
+            "(cones, cylinders, non-degenerate) raise NotReducible; conic x conic on pencils with known base points: every general 4-frame of the 3x3 "
+            "lattice x all ordered pairs of 6 pencil parameters (degenerate members included as self and as argument), tangent pencils with a double "
+            "base point, lattice circles (real points and the circular points): <= 4 points, each common, every exact common point present.",
+            NOTE, TECH, "DESIGN.md section 5, C15"),
     "C14": ("All 728 non-zero symmetric 3x3 matrices over {-1,0,1} (split exactly into non-degenerate / rank 2 / rank 1) x all 26 lattice lines: "
             "intersect compared with the two roots of the exact integer binary form of the restriction (secant, tangent contact once or as a "
             "coincident pair, complex pair), single and collection forms incl. mixed collections; 14 integer 4x4 quadrics of every rank/signature and "
